@@ -200,6 +200,23 @@ def run(chk, replay=None):
             b = (lambda K=K, op=op, kw=copy.deepcopy(kw): K(op, **kw))
             b.cdb_args = {}
             record(fmt, cls, setname, b, inp)
+            # the caller reuses one of its segment dictionaries for a descriptor of another type / size
+            if i % 4 == 0:
+                s_, d_ = ("source_target_descriptor_id", "destination_target_descriptor_id") if std == 4 else \
+                    ("source_cscd_descriptor_id", "destination_cscd_descriptor_id")
+                seg = {"descriptor_type_code": rng.choice([2, 0x0D, 0, 1]), "cat": rng.getrandbits(1), s_: pick(rng, 65535),
+                       d_: pick(rng, 65535), "block_device_number_of_blocks": pick(rng, 65535)}
+                lk = "target_descriptor_list" if std == 4 else "cscd_descriptor_list"
+                try:
+                    K(op, **{lk: [], "segment_descriptor_list": [seg]})       # first use (the library may annotate seg)
+                except Exception:
+                    pass
+                seg["descriptor_type_code"] = rng.choice([0, 0x0B, 2, 0x0C])
+                want = {k: v for k, v in seg.items() if k != "descriptor_length"}
+                inp2 = {"segment_descriptor_list": [want], lk: [], "inline_data": bytearray()}
+                b2 = (lambda K=K, op=op, seg=seg, lk=lk: K(op, **{lk: [], "segment_descriptor_list": [seg]}))
+                b2.cdb_args = {}
+                record(fmt, cls, setname, b2, inp2)
     vs, st = tlc.judge_traces("Trace_Data", "Trace_Data.cfg", marsh, name="c05trd")
     ev.judged("Trace_Data (Marshal events)", st, len(marsh))
     import json
